@@ -650,6 +650,22 @@ def frame_shape(ir):
     return sites, bad
 
 
+def symbol_shape(ir):
+    """raises if a unique_symbol marker is not named by a string leaf or unique_symbols fails at some node"""
+    n_markers = 0
+    stack = [ir]
+    while stack:
+        n = stack.pop()
+        if n.value == "unique_symbol":
+            n_markers += 1
+            a = n.args[0]
+            if not isinstance(a.value, str) or a.args:
+                raise ValueError(f"marker not named by a leaf: {n}")
+        n.unique_symbols      # CompilerPanic if non-unique
+        stack.extend(n.args)
+    return n_markers
+
+
 def real_lower_tie(ctx):
     """exact output equality on whole compiled contracts (legacy pipeline, optimize none / gas / codesize): the runtime IR
     through compile_ir.compile_to_assembly(ir, NONE) (= _rewrite_return_sequences + lowering, no assembly optimiser)
@@ -671,13 +687,15 @@ def real_lower_tie(ctx):
         return x.replace('"', "'").replace("\n", " ").replace("\\", "/")
 
     cases, sites_all, skipped = [], {}, 0
+    shape_reported = sym_reported = False
     for c in contracts:
         for lvl in (OptimizationLevel.NONE, OptimizationLevel.GAS, OptimizationLevel.CODESIZE):
             st = Settings(optimize=lvl, evm_version="cancun", experimental_codegen=False)
             try:
                 with anchor_settings(st):
                     fi = FileInput(0, pathlib.Path(c["name"] + ".vy"), pathlib.Path(c["name"] + ".vy"), c["src"])
-                    ir = CompilerData(fi, settings=st).ir_runtime
+                    cd = CompilerData(fi, settings=st)
+                    ir = cd.ir_runtime
                     asm = compile_ir.compile_to_assembly(ir, OptimizationLevel.NONE)
                     r = [clean(c15_asm.show_item(x)) for x in c15_asm.from_real(list(asm))]
                     coq = c15_tree.coq_of_node_real(ir, clean)
@@ -685,10 +703,22 @@ def real_lower_tie(ctx):
                 skipped += 1
                 ctx.log(f"real_lower: {c['name']} {lvl} skipped: {type(e).__name__}")
                 continue
+            # front-end shape assumed by optimize_never_symbol_panic: markers named by string leaves, unique_symbols
+            # succeeds at every node -- on the tree the legacy pipeline hands to optimizer.optimize (deploy + runtime)
+            try:
+                with anchor_settings(st):
+                    symbol_shape(cd.ir_nodes)
+            except Exception as e:  # noqa
+                if not sym_reported:
+                    sym_reported = True
+                    ctx.violation("correspondence-broken", "front-end IR violates the shape assumed by the symbol theorems "
+                                  "(leaf-named markers, unique_symbols succeeds at every node)",
+                                  {"contract": c["name"], "optimize": str(lvl), "error": f"{type(e).__name__}: {str(e)[:300]}"})
             sites, bad = frame_shape(ir)
             for k, v in sites.items():
                 sites_all[k] = sites_all.get(k, 0) + v
-            if bad:
+            if bad and not shape_reported:
+                shape_reported = True
                 ctx.violation("correspondence-broken", "the front end emits a return / exit_to site outside the frame shape "
                               "assumed by the return-sequence theorems (only label parameters on the stack)",
                               {"contract": c["name"], "optimize": str(lvl), "site": bad[0][0], "node": bad[0][1]})
@@ -778,7 +808,7 @@ STATIC_FILES = ["C15/Syntax.v", "C15/WordFacts.v", "C15/Bytes.v", "C15/Peephole.
                 "C15/JumpSem.v", "C15/JumpSound.v", "C15/JumpSound2.v", "C15/JumpSound3.v", "C15/PropsPeephole.v"]
 # regenerated model first: any change in /repo's translated code re-checks every proof after it
 GEN_FILES = ["C15/GenUtils.v", "C15/Optimizer.v", "C15/OptTree.v", "C15/FoldSound.v", "C15/PropsFold.v", "C15/OptSound.v",
-             "C15/OptTreeSound.v", "C15/MergeSound.v", "C15/MemInst.v", "C15/SymSound.v", "C15/PropsOpt.v",
+             "C15/OptTreeSound.v", "C15/MergeSound.v", "C15/MemInst.v", "C15/SymSound.v", "C15/SymHered.v", "C15/PropsOpt.v",
              "C15/Lower.v", "C15/LowerSound.v", "C15/LowerFlow.v", "C15/FlowSound.v", "C15/RetRewrite.v",
              "C15/RetRewriteSound.v", "C15/PropsLower.v"]
 
